@@ -406,7 +406,7 @@ instance (recKey : P SearchKey) [Plain recKey] : Plain (handleSearchKey recKey k
 instance (recKey : P SearchKey) [Plain recKey] : Plain (parseSearchKeyList recKey fuel) := by unfold parseSearchKeyList; infer_instance
 theorem plain_parseSearchKey (d fuel : Nat) : Plain (parseSearchKey d fuel) := by
   induction d with
-  | zero => exact inferInstanceAs (Plain outOfFuel)
+  | zero => unfold parseSearchKey; infer_instance
   | succ d ih => unfold parseSearchKey; infer_instance
 instance : Plain (parseSearchKey d fuel) := plain_parseSearchKey d fuel
 instance : Plain (searchFirst fuel) := by unfold searchFirst; infer_instance
@@ -414,7 +414,7 @@ instance : Plain (parseSearch fuel) := by
   unfold parseSearch
   have : ∀ x : BStr × List SearchKey, Plain (match x with
       | (charset, first) => do
-        let more ← sepLoop .sp (parseSearchKey fuel fuel) fuel
+        let more ← sepLoop .sp (parseSearchKey searchBudget fuel) fuel
         let keys := first ++ more
         if keys.isEmpty then makeError
         else pure (Cmd.search charset keys) : P Cmd) := by
